@@ -49,6 +49,8 @@ def generate(rng, tier):
         for exp in "vtw":
             sd = rng.choice([0, 0xFFFFFFFF, rng.getrandbits(32)])
             cs.append(Case("rng.proofseed %s | %s" % (exp, (struct.pack("<I", sd) + extra).hex()), "site:world-seed-" + exp, "%d ~4" % sd))
+            sd = rng.choice([0, 0xFFFFFFFF, rng.getrandbits(32), rng.getrandbits(32)])
+            cs.append(Case("rng.proofseed.default %s | %s" % (exp, (struct.pack("<I", sd) + extra).hex()), "site:world-seed-default-impl-" + exp, "%d ~4" % sd))
         sd = rng.getrandbits(32)
         cs.append(Case("rng.pinseed | %s" % (struct.pack("<I", sd) + extra).hex(), "site:pin-grid-seed", "%d ~4" % sd))
         x = rbytes(rng, 16)
@@ -65,7 +67,7 @@ def generate(rng, tier):
                        lambda out, dg=dg, k=4 * len(draws): None if out == "ok %s ~%d" % (bytes(dg).hex(), k) and max(dg) <= 9 else "card digits are not the accepted samples / exceed 9"))
     # statistical test against the real ThreadRng (pass-through): a TEST, not a theorem
     ns = 2000 if tier == "quick" else 10000
-    for site, width in [("salt", 32), ("b", 32), ("a", 32), ("chal", 16), ("refresh", 16), ("cd", 16), ("seedv", 4), ("seedt", 4), ("seedw", 4),
+    for site, width in [("salt", 32), ("b", 32), ("a", 32), ("chal", 16), ("refresh", 16), ("cd", 16), ("seedv", 4), ("seedt", 4), ("seedw", 4), ("seedvd", 4), ("seedtd", 4), ("seedwd", 4),
                         ("integsalt", 16), ("pinsalt", 16), ("pinseed", 4), ("mcseed", 8), ("mcdigits", 32)]:
         def exp(out, site=site, width=width, ns=ns):
             f = dict(t.split("=") for t in out.split(" ") if "=" in t)
